@@ -80,6 +80,13 @@ Definition chk_C16 (c : cfg) (sel : list (bytes * path)) (wc : wcond)
            (regs : list (bytes * list bytes * list row)) (ops : list op) (impl : list out) : option (nat * clause) :=
   chk_outs O (api_run sel wc ops (spec_run c regs ops)) impl.
 
+(* the same from the SQL text: the JOIN clause as written (aliased or not, ON fields qualified by the
+   alias / the table's own name / not at all, on either side of "="), keys derived from ON when
+   RegisterTable got none; expected = the abstract table under the MEANING of the clause *)
+Definition chk_C16_sql (q : qtext) (sel : list (bytes * path)) (wc : wcond)
+           (regs : list reg_call) (ops : list op) (impl : list out) : option (nat * clause) :=
+  chk_outs O (api_run sel wc ops (spec_run_sql q regs ops)) impl.
+
 (* encodeKey(a) == encodeKey(b) on the real code must be the property's key equality *)
 Definition chk_key_equality (a b : list kv) (impl_equal : bool) : option clause :=
   if Bool.eqb (tuple_eqb a b) impl_equal then None else Some ClKeyEquality.
